@@ -826,8 +826,8 @@ func (g *graph) compile(ctx context.Context, opt *graphCompileOptions) (*composa
 			inputPairs[key] = c.action.inputStreamConvertPair
 			outputPairs[key] = c.action.outputStreamConvertPair
 		}
-		inputPairs[END] = r.outputConvertStreamPair
-		outputPairs[START] = r.inputConvertStreamPair
+		inputPairs[END] = g.outputStreamConvertPair
+		outputPairs[START] = g.inputStreamConvertPair
 		r.checkPointer = newCheckPointer(inputPairs, outputPairs, opt.checkPointStore)
 
 		r.interruptBeforeNodes = opt.interruptBeforeNodes
